@@ -101,6 +101,12 @@ def constructed(rng):
         p = rng.randrange(n_, 19)
         for sgn in (1, -1):
             out.append("%s %s %d" % (rng.choice(("round", "cround")), G.fD(sgn * c, p), p - n_))
+    # kept digits with binary-structured limbs (limb sums that carry), every residue mod 5
+    for sh in range(1, 25):
+        for c in G.limb_quotient_values(rng, sh, 6):
+            p = rng.randrange(0, 19)
+            for sgn in (1, -1):
+                out.append("%s %s %d" % (rng.choice(("round", "cround")), G.fD(sgn * c, p), p - sh))
     # seams of the split at s digits for every s up to 38 (quotient at floor(T/10^s) +- 2, remainder 0 / 1 / all nines / half)
     for sh in range(1, 39):
         for c in G.split_values(rng, sh, 3):
